@@ -200,7 +200,8 @@ func judge(c Case, w *vkit.W) {
 }
 
 var cores = [][3]uint64{{0, 0, 0}, {0, 0, 1}, {0, 1, 0}, {1, 0, 0}, {1, 2, 3}, {max64, 0, 0}, {0, max64, 0}, {0, 0, max64}, {max64 - 1, max64 - 1, max64 - 1}, {max64, max64, max64}, {1 << 63, 0, 0}, {1<<63 - 1, 5, 5}}
-var mixed = []string{"a01", "a1", "a02", "a2", "a10", "a0x", "a00", "rc1", "rc10", "rc2", "rc.10", "rc.2", "0a", "-1", "--", "a-1", "a-01", "x.a01", "x.a1", "alpha", "alpha.1", "alpha.beta", "beta.2", "beta.11", "1a", "01a", "a.01a", "99999999999999999999", "100000000000000000000", "a99999999999999999999", "a100000000000000000000"}
+var mixed = []string{"a01", "a1", "a02", "a2", "a10", "a0x", "a00", "rc1", "rc10", "rc2", "rc.10", "rc.2", "0a", "-1", "--", "a-1", "a-01", "x.a01", "x.a1", "alpha", "alpha.1", "alpha.beta", "beta.2", "beta.11", "1a", "01a", "a.01a", "99999999999999999999", "100000000000000000000", "a99999999999999999999", "a100000000000000000000",
+	"18446744073709551614", "18446744073709551615", "18446744073709551616", "18446744073709551617", "rc18446744073709551615", "rc18446744073709551616", "9223372036854775807", "9223372036854775808", "4294967295", "4294967296", "x.18446744073709551615", "x.18446744073709551616"}
 
 func ntPair(c Case) bool {
 	return c.A.Major == c.B.Major && c.A.Minor == c.B.Minor && c.A.Patch == c.B.Patch && c.A.Pre != "" && c.B.Pre != "" && c.A.Pre != c.B.Pre
@@ -331,7 +332,7 @@ func TestCheck(t *testing.T) {
 	r.Phase("C: string helpers on a pool of valid/invalid texts (all ordered pairs)", func() {
 		pool := []string{"", "v", "1.2.3", "v1.2.3", "1.2.3-a01", "1.2.3-a1", "v1.2.3-rc.1+b", "1.2.3+b", "1.2", "1.2.3.4", "01.2.3", "1.2.3-01", "1.2.3-", "1.2.3+", "vv1.2.3", "V1.2.3", "1.2.3 ", "1.2.3-é",
 			"18446744073709551615.0.0", "18446744073709551616.0.0", "0.18446744073709551616.0", "v0.0.18446744073709551616", "0.0.0", "v0.0.0", "0.0.0-0", "0.0.0--", "2.0.0-beta.2", "2.0.0-beta.11", "v2.0.0-beta.11+x",
-			"1.0.0-" + strings.Repeat("a", 1017), "1.0.0-" + strings.Repeat("a", 1018), "1.0.0-" + strings.Repeat("a", 1019), "v1.0.0-" + strings.Repeat("1", 1016), "v1.0.0-" + strings.Repeat("1", 1017)}
+			"1.0.0-" + strings.Repeat("a", 1017), "1.0.0-" + strings.Repeat("a", 1018), "1.0.0-" + strings.Repeat("a", 1019), "v1.0.0-" + strings.Repeat("1", 1016), "v1.0.0-" + strings.Repeat("1", 1017), "v1.0.0-" + strings.Repeat("1", 1018), "v1.0.0-" + strings.Repeat("a", 1017), "v1.0.0-" + strings.Repeat("a", 1018), "v1.0.0-" + strings.Repeat("a", 1019)}
 		for _, u := range uni[:minInt(len(uni), 60)] {
 			pool = append(pool, "1.0.0-"+u, "v1.0.0-"+u+"+b")
 		}
